@@ -68,6 +68,17 @@ def ServerStream.processSyn (env : Env) (s : ServerStream) (p : Packet) (addr : 
     | .error e => { s, err := some e }
     | .ok data => { s, outs := [.emit addr ack data] }
 
+/-- `process_login_request(payload, client, login)`: without a ticket key everybody is admitted with an empty
+    response; with one, the request must pass the login check, and only a NEW client is logged in (repo commit 5fe58c8) -/
+def ServerStream.loginStep (env : Env) (now : Time) (s : ServerStream) (p : Packet) (client : Conn) (isNew : Bool) :
+    Except Err (Conn × Bytes) :=
+  match s.key with
+  | none => .ok (client, [])
+  | some key =>
+    match env.loginRequest p.payload key now with
+    | .error e => .error e
+    | .ok (pid, cid, sk, resp) => .ok (if isNew then client.login pid cid sk else client, resp)
+
 /-- `PRUDPServerStream.process_connect` followed by the start of `start_client` (`serve()`) -/
 def ServerStream.processConnect (env : Env) (now : Time) (rnd : Rnd) (linkUp : Bool) (s : ServerStream) (p : Packet) (addr : Addr) : SR :=
   let codec := select env.cfg.sel p.version
@@ -86,16 +97,7 @@ def ServerStream.processConnect (env : Env) (now : Time) (rnd : Rnd) (linkUp : B
                    s.addr s.port s.type addr p.sourcePort p.sourceType
         { c with maxSub := p.maxSubstreamId, supFuncs := p.supportedFunctions, minorVer := p.minorVersion,
                  remoteSignature := p.connectionSignature, remoteSessionId := some p.sessionId, linkUp := linkUp }
-    -- process_login_request
-    let login : Except Err (Conn × Bytes) :=
-      match s.key with
-      | none => .ok (client, [])
-      | some key =>
-        match env.loginRequest p.payload key now with
-        | .error e => .error e
-        | .ok (pid, cid, sk, resp) =>
-          .ok (if existing.isNone then client.login pid cid sk else client, resp)
-    match login with
+    match s.loginStep env now p client existing.isNone with
     | .error e => { s, err := some e }
     | .ok (client, response) =>
       -- new client: registered, `start_client` scheduled; its `serve()` runs before the next datagram
@@ -144,7 +146,8 @@ def portKey (port type : Nat) : Nat := port ||| (type <<< 8)
 
 structure ServerT where
   streams : List (Nat × ServerStream) := []       -- port table
-  liteBuf : Bytes := []                           -- `PRUDPLiteMessage.buffer` of the one shared selector
+  liteBuf : Bytes := []                           -- `PRUDPLiteMessage.buffer` of the transport's own selector (datagram transports)
+  liteBufs : List (Addr × Bytes) := []            -- stream transports: one reassembly buffer per stream connection (repo fix D4)
   links : List Addr := []                         -- stream transports: connected stream clients (`self.clients`)
   isStream : Bool := false
   deriving DecidableEq, Repr
@@ -179,9 +182,17 @@ def ServerT.dispatch (env : Env) (now : Time) (rnd : Rnd) (addr : Addr) : List P
         { t := r'.t, outs := r.outs ++ r'.outs, err := r'.err }
 
 /-- `process_data(data, addr)`: decode, dispatch, swallow any exception -/
+def bufLookup (a : Addr) : List (Addr × Bytes) → Bytes
+  | [] => []
+  | (a', b) :: r => if a' = a then b else bufLookup a r
+
+def bufSet (a : Addr) (b : Bytes) : List (Addr × Bytes) → List (Addr × Bytes)
+  | [] => [(a, b)]
+  | (a', b') :: r => if a' = a then (a, b) :: r else (a', b') :: bufSet a b r
+
 def ServerT.processData (env : Env) (now : Time) (rnd : Rnd) (t : ServerT) (data : Bytes) (addr : Addr) : TR :=
-  let (res, buf) := decode env.cfg t.liteBuf data
-  let t := { t with liteBuf := buf }
+  let (res, buf) := decode env.cfg (if t.isStream then bufLookup addr t.liteBufs else t.liteBuf) data
+  let t := if t.isStream then { t with liteBufs := bufSet addr buf t.liteBufs } else { t with liteBuf := buf }
   match res with
   | .error e => { t, err := some e }
   | .ok ps => ServerT.dispatch env now rnd addr ps t
